@@ -24,6 +24,7 @@ type harnessRun struct {
 	Covers  []string       `json:"covers"`  // labels that must be reached
 	Expect  string         `json:"expect"`  // "" | "violation" (vacuity twin)
 	Note    string         `json:"note"`
+	Solver  string         `json:"solver"` // "" = z3; "z3-new" | "cvc5" = cross-check run
 }
 
 type tierCfg struct {
@@ -180,6 +181,10 @@ func execRun(P *program, r harnessRun, workers int, defaultBudget time.Duration)
 		P.stepBudget = int64(v)
 	} else {
 		P.stepBudget = 3_000_000
+	}
+	P.solverKind = "z3"
+	if r.Solver != "" {
+		P.solverKind = r.Solver
 	}
 	budget := defaultBudget
 	if r.BudgetS > 0 {
@@ -429,11 +434,40 @@ func cmdCheck(args []string) int {
 			}
 		}
 	}
+	// solver cross-check: runs with identical harness and bounds under
+	// different solvers must explore the same paths with the same verdicts
+	groups := map[string][]*runResult{}
+	for _, rr := range results {
+		pj, _ := json.Marshal(rr.run.Params)
+		k := rr.run.Harness + string(pj) + rr.run.Expect
+		groups[k] = append(groups[k], rr)
+	}
+	for _, g := range groups {
+		for _, rr := range g[1:] {
+			a, b := g[0].ex, rr.ex
+			if a.paths != b.paths || a.okPaths != b.okPaths || a.asserts != b.asserts || len(a.violations) != len(b.violations) {
+				msg := fmt.Sprintf("solver cross-check: %s explored paths=%d ok=%d asserts=%d under %q but paths=%d ok=%d asserts=%d under %q",
+					rr.run.Harness, a.paths, a.okPaths, a.asserts, solverName(g[0].run.Solver), b.paths, b.okPaths, b.asserts, solverName(rr.run.Solver))
+				fmt.Printf("INCONCLUSIVE property=%s: %s\n", *prop, msg)
+				problems = append(problems, msg)
+				if exit == 0 {
+					exit = 2
+				}
+			}
+		}
+	}
 	writeEvidence(*prop, *tier, seed, P, results, time.Since(t0), nViol, problems, pc)
 	if exit == 0 {
 		fmt.Printf("OK property=%s tier=%s (%.1fs)\n", *prop, *tier, time.Since(t0).Seconds())
 	}
 	return exit
+}
+
+func solverName(s string) string {
+	if s == "" {
+		return "z3"
+	}
+	return s
 }
 
 func firstLine(s string) string {
@@ -489,7 +523,7 @@ func writeEvidence(prop, tier string, seed int, P *program, results []*runResult
 			"unwind_cap_hits": ex.unwinds, "inconclusive": ex.nInconcl, "violating_paths_raw": ex.rawViolations,
 			"assertions_checked": ex.asserts, "solver_queries": ex.solver.queries,
 			"solver_time_s": round3(ex.solver.time.Seconds()), "wall_s": round3(rr.wall.Seconds()),
-			"timed_out": ex.timedOut, "expect": rr.run.Expect, "note": rr.run.Note,
+			"timed_out": ex.timedOut, "expect": rr.run.Expect, "note": rr.run.Note, "solver": solverName(rr.run.Solver),
 		})
 	}
 	if len(samples) == 0 {
